@@ -678,7 +678,8 @@ class Fn:
                 else:
                     callee = x["fn"].get("res") or x["fn"].get("def") or "?"
                     short = callee.rsplit("::", 1)[-1]
-                    if short in self.PASS_THROUGH and x["args"]:
+                    if (short in self.PASS_THROUGH or (short == "filter" and callee.startswith("std::option::Option"))) and x["args"]:
+                        # Option::filter hands back its receiver or None: the value, if any, is the receiver's
                         a = op_local(x["args"][0])
                         if a is not None:
                             work.append((a, d + 1))
@@ -784,7 +785,8 @@ class Fn:
                 callee = t["fn"].get("res") or t["fn"].get("def") or "?"
                 short = callee.rsplit("::", 1)[-1]
                 a0 = t["args"][0] if t["args"] else None
-                if a0 is not None and op_local(a0) is not None and short in self.PASS_THROUGH and not t.get("inlined"):
+                if a0 is not None and op_local(a0) is not None and not t.get("inlined") and \
+                        (short in self.PASS_THROUGH or (short == "filter" and callee.startswith("std::option::Option"))):
                     pl = a0.get("c") or a0.get("m")
                     base = norm(pl[1:])
                     if short == "branch":
@@ -977,6 +979,11 @@ class Program:
         if f is None:
             raise AnchorMissing("function `%s` not found" % fid)
         return f
+
+    def where_of(self, fid):
+        """source position of a function, for reports (not a lookup of the rule's subject: leaves no trace in `requested`)"""
+        f = self.raw_fns.get(fid)
+        return f.where() if f is not None else ""
 
     def method(self, adt, name, trait=None):
         """the inherent (or trait) method `name` of type `adt` — independent of how generics print"""
@@ -1218,7 +1225,7 @@ class Program:
             return False
         return all(self.dominated_interproc(g, c.bb, T, depth - 1, _seen | {f.id}) for g, c in sites)
 
-    def followed_interproc(self, f, start, T, depth=3, _seen=None):
+    def followed_interproc(self, f, start, T, depth=3, _seen=None, within=()):
         """every success path from block `start` of f to the end of the enclosing operation passes a call
         into T*: inside f, or — for paths that return from f first — after every call site of f"""
         Tstar = self.must_reach_set(T) if not isinstance(T, frozenset) else T
@@ -1236,7 +1243,9 @@ class Program:
         for g, c in sites:
             if c.term.get("to") is None:
                 continue
-            ok = ok and self.followed_interproc(g, c.term["to"], frozenset(Tstar), depth - 1, _seen | {f.id})
+            if (g.root or g.id) in within:
+                continue            # a call made from inside the operation that is asked for (T itself uses the helper)
+            ok = ok and self.followed_interproc(g, c.term["to"], frozenset(Tstar), depth - 1, _seen | {f.id}, within)
         return ok
 
     # ---- must-pass-through (DESIGN 4.1) -----------------------------------------
